@@ -595,9 +595,10 @@ def conditions(tier):
         {"name": "smt_bar", "engine": "smt", "fn": smt_bar, "timeout": 400, "replay": _replay_smt, "bounds": "all 0 <= step <= max <= 4095, 1 <= bar_width <= 64 (cvc5 QF_BVFP over the translated bar_offset/_formatter_bar)"},
         {"name": "smt_set_progress", "engine": "smt", "fn": smt_set_progress, "timeout": 900, "replay": _replay_smt, "bounds": "all |argument| <= 4095, 0 <= step <= max <= 4095 (max 0 = unknown), all finite clock readings last <= now <= 1e6, 0 <= min <= max interval"},
     ]
-    configs = [("ansi", 10, 10), ("ansi", 3, 10), ("ansi", 0, 10), ("plain", 10, 10), ("plain", 0, 10), ("section", 10, 10), ("quiet", 10, 10)]
+    # (bar widths 1 and 2: more frames than the bar is wide are written within the bound)
+    configs = [("ansi", 10, 10), ("ansi", 3, 10), ("ansi", 0, 10), ("plain", 10, 10), ("plain", 0, 10), ("section", 10, 10), ("quiet", 10, 10), ("plain", 3, 1), ("plain", 10, 2), ("ansi", 3, 2)]
     if not quick:
-        configs += [("ansi", 1, 1), ("ansi", 50, 28), ("plain", 3, 1), ("section", 3, 10), ("section", 0, 10)]
+        configs += [("ansi", 1, 1), ("ansi", 50, 28), ("section", 3, 10), ("section", 0, 10), ("section", 3, 1)]
     for kind, mx, bw in configs:
         if quick:
             conds.append({"name": "sequence2[%s,max=%d,bw=%d]" % (kind, mx, bw), "fn": sequence, "timeout": t, "part": {"kind": kind, "max": mx, "bw": bw, "n": 2, "o1": None},
